@@ -1464,6 +1464,9 @@ func (c *Ctx) ruleFlatten(rule string) {
 		}
 	})
 	if rec == nil || nextLoad == nil {
+		if c.flattenRecursive(rule, fn) {
+			return
+		}
 		r.Und(rule, "flatten:shape", p.Pos(fn.Pos()), "cannot find the recording of node ids or the read of the successors")
 		return
 	}
@@ -4785,7 +4788,34 @@ func (c *Ctx) ruleSweepNoCarriedFlags(rule string) {
 func unconditionalBetween(from, to *ssa.BasicBlock) bool {
 	for b := to; b != nil && b != from; b = b.Idom() {
 		d := b.Idom()
-		if d == nil || len(d.Succs) != 1 {
+		if d == nil {
+			return false
+		}
+		if len(d.Succs) == 1 {
+			continue
+		}
+		// a branch in between is harmless when its other side certainly fails the call: a straight line to a return
+		// of a non-nil error (a validation that refuses the input — nothing is forwarded on that side)
+		okBranch := len(d.Succs) == 2
+		for _, s := range d.Succs {
+			if s == b || !okBranch {
+				continue
+			}
+			t := s
+			for len(t.Succs) == 1 && len(t.Preds) == 1 {
+				t = t.Succs[0]
+			}
+			okBranch = false
+			if len(t.Instrs) > 0 && len(t.Succs) == 0 {
+				if ret, isRet := t.Instrs[len(t.Instrs)-1].(*ssa.Return); isRet {
+					rv := RetVals(ret)
+					if idx, isErr := returnsError(t.Parent().Signature); isErr && idx < len(rv) && !isNilConst(rv[idx]) {
+						okBranch = true
+					}
+				}
+			}
+		}
+		if !okBranch {
 			return false
 		}
 	}
@@ -5017,6 +5047,13 @@ func (c *Ctx) ruleCopyLengths(rule string) {
 								}
 							}
 						})
+					}
+					// ... or of a local that became a memory cell (a closure reads it): the store that precedes the
+					// copy in the same block
+					if cell, isCell := x.X.(*ssa.Alloc); isCell && x.Op == token.MUL {
+						if fv := forwardedStoreIgnoringCalls(x, cell); fv != nil {
+							find(fv, depth+1)
+						}
 					}
 				}
 			}
@@ -6776,5 +6813,789 @@ func (c *Ctx) ruleFormatFromTable(rule string) {
 	}
 	if n == 0 {
 		r.Und(rule, "Format:reads-table", p.Pos(fn.Pos()), "no return of (*Event).Format found")
+	}
+}
+
+// flattenRecursive: flatten written as a recursion — a method of linkedNode that records its receiver's id in the map
+// it is given (unconditionally) and calls itself for every element of the receiver's next (a full, unconditional loop,
+// with the same map). Each call descends one link of the chain linkNodes built, so it terminates where the worklist
+// version does. Reports the same constructs as the worklist form; false when the shape is not this one.
+func (c *Ctx) flattenRecursive(rule string, fn *ssa.Function) bool {
+	p, r := c.P, c.R
+	for _, ci := range callsTo(fn, func(n string, cc *ssa.CallCommon) bool {
+		sc := cc.StaticCallee()
+		return sc != nil && sc.Blocks != nil && PkgPathOf(sc) == PkgRoot && sc.Signature.Recv() != nil && typeShort(sc.Signature.Recv().Type()) == "eventlogger.linkedNode"
+	}) {
+		h := ci.Common().StaticCallee()
+		self := callsTo(h, func(n string, cc *ssa.CallCommon) bool { return cc.StaticCallee() == h })
+		if len(self) != 1 || len(h.Params) < 2 {
+			continue
+		}
+		// flatten hands over its own receiver and a map it returns
+		if ci.Common().Args[0] != ssa.Value(fn.Params[0]) {
+			continue
+		}
+		tb := p.NewTerms(nil)
+		var rec *ssa.MapUpdate
+		eachInstr(h, func(in ssa.Instruction) {
+			if mu, ok := in.(*ssa.MapUpdate); ok {
+				if kt := tb.Of(mu.Key); kt.Is("Field", "nodeID") && kt.Args[0].V == ssa.Value(h.Params[0]) && mu.Map == ssa.Value(h.Params[1]) {
+					rec = mu
+				}
+			}
+		})
+		if rec == nil {
+			continue
+		}
+		okRec := true
+		for _, ret := range Returns(h) {
+			if !dominatesInstr(rec, ret) {
+				okRec = false
+			}
+		}
+		r.Check(okRec, rule, "flatten:record", p.InstrPos(rec), "every visited node's id is recorded", "a visited node's id is recorded only under a condition")
+		call := self[0]
+		at := tb.Of(call.Common().Args[0])
+		okElem := at.Op == "Index" && at.Args[0].Is("Field", "next") && at.Args[0].Args[0].V == ssa.Value(h.Params[0]) && call.Common().Args[1] == ssa.Value(h.Params[1])
+		full, why := innerLoopFull(call)
+		unc, _ := unconditionalInLoop(call)
+		r.Check(okElem && unc, rule, "flatten:successors", p.InstrPos(call), "the successors of every visited node are visited", "the successors of a visited node are visited only under a condition, or not with the same map")
+		r.Check(okElem && full && unc, rule, "flatten:push", p.InstrPos(call), "every successor is visited (full, unconditional loop over node.next)", "not every successor of a visited node is visited ("+why+")")
+		r.Ok(rule, "flatten:pop", p.Pos(h.Pos()), "recursion: every call descends one link of the chain, which linkNodes builds without cycles")
+		return true
+	}
+	return false
+}
+
+// ruleRecoverResults (<prefix>.recover): a deferred function that recovers a panic makes
+// the enclosing function return its RESULT VARIABLES as they stand — go/ssa models this as
+// the function's recover block, which returns the named results (or, for unnamed results,
+// spill cells that only a completed return statement fills). Two obligations follow for
+// every function of the given packages that recovers:
+//   - <fn>:error-reaches-result — when the function returns an error, the recovering
+//     closure stores a non-nil error into a cell the recover block returns. An assignment
+//     to an ordinary local (the result is unnamed, or shadowed) is lost: the caller gets
+//     the zero value, i.e. SUCCESS, for a call that panicked half way.
+//   - <fn>:changed-flag (only for methods of the Broker with a bool result, "something was
+//     removed") — the closure stores true into that result, or the flag is already true
+//     wherever foreign code can panic: a removal that panicked after the registry was changed
+//     must not report false, which promises that everything is as it was.
+func (c *Ctx) ruleRecoverResults(rule string, pkgs []string, changedFlag bool) {
+	// the repository has no recovering function today: the control pair shows on every run that the rule is armed
+	if !c.R.controlsWant["ctl.recover"] {
+		c.recoverControls()
+	}
+	c.recoverResults(rule, pkgs, changedFlag, false)
+}
+
+// recoverControls: the Bad / Good pair of the recover rule (control package locks).
+func (c *Ctx) recoverControls() {
+	c.recoverResults("ctl.recover", []string{PkgCtl + "/locks"}, false, true)
+	c.R.WantControl("ctl.recover")
+}
+
+func (c *Ctx) recoverResults(rule string, pkgs []string, changedFlag, control bool) {
+	p, r := c.P, c.R
+	inPkgs := func(f *ssa.Function) bool {
+		for _, pk := range pkgs {
+			if PkgPathOf(f) == pk {
+				return true
+			}
+		}
+		return false
+	}
+	callsRecover := func(g *ssa.Function) bool {
+		found := false
+		eachInstr(g, func(in ssa.Instruction) {
+			if ci, ok := in.(*ssa.Call); ok {
+				if b, isB := ci.Call.Value.(*ssa.Builtin); isB && b.Name() == "recover" {
+					found = true
+				}
+			}
+		})
+		return found
+	}
+	n := 0
+	for _, f := range c.allFuncs() {
+		if !inPkgs(f) || f.Blocks == nil {
+			continue
+		}
+		eachInstr(f, func(in ssa.Instruction) {
+			d, ok := in.(*ssa.Defer)
+			if !ok {
+				return
+			}
+			mc, ok := d.Call.Value.(*ssa.MakeClosure)
+			var g *ssa.Function
+			if ok {
+				g, _ = mc.Fn.(*ssa.Function)
+			} else if sc := d.Call.StaticCallee(); sc != nil {
+				g = sc
+			}
+			if g == nil || g.Blocks == nil || !callsRecover(g) {
+				return
+			}
+			n++
+			// a closure that panics again (after logging, say) does not turn the panic into a return
+			rePanics := false
+			eachInstr(g, func(gi ssa.Instruction) {
+				if _, isP := gi.(*ssa.Panic); isP {
+					rePanics = true
+				}
+			})
+			if rePanics {
+				r.Ok(rule, p.ShortFn(f)+":error-reaches-result", p.InstrPos(d), "the recovering closure panics again: the panic is not turned into a return")
+				return
+			}
+			// the cells the recover block returns, by result index
+			resultCell := map[ssa.Value]int{}
+			if f.Recover != nil {
+				if ret, ok := lastInstr(f.Recover).(*ssa.Return); ok {
+					for i, rv := range ret.Results {
+						if ld, isLd := rv.(*ssa.UnOp); isLd && ld.Op == token.MUL {
+							resultCell[ld.X] = i
+						}
+					}
+				}
+			}
+			// what the closure stores, and where: free variable -> binding in f
+			binding := map[ssa.Value]ssa.Value{}
+			if mc != nil {
+				for i, fv := range g.FreeVars {
+					if i < len(mc.Bindings) {
+						binding[fv] = mc.Bindings[i]
+					}
+				}
+			}
+			storesTo := map[int][]ssa.Value{} // result index -> stored values
+			eachInstr(g, func(gi ssa.Instruction) {
+				st, ok := gi.(*ssa.Store)
+				if !ok {
+					return
+				}
+				if b, ok := binding[st.Addr]; ok {
+					if idx, isRes := resultCell[b]; isRes {
+						storesTo[idx] = append(storesTo[idx], st.Val)
+					}
+				}
+			})
+			if idx, isErr := returnsError(f.Signature); isErr {
+				okErr := false
+				for _, v := range storesTo[idx] {
+					if !isNilConst(v) {
+						okErr = true
+					}
+				}
+				if control {
+					switch {
+					case !okErr && isBadName(f.Name()):
+						r.ControlFired(rule, p.ShortFn(f), p.InstrPos(d), "recovered panic does not reach the error result")
+					case !okErr:
+						r.Und(rule, p.ShortFn(f), p.InstrPos(d), "negative control flagged")
+					case isBadName(f.Name()):
+						r.Und(rule, p.ShortFn(f), p.InstrPos(d), "positive control not flagged")
+					}
+					return
+				}
+				r.Check(okErr, rule, p.ShortFn(f)+":error-reaches-result", p.InstrPos(d), "the recovering closure stores a non-nil error into the function's error result",
+					"the function recovers a panic but the recovering closure does not store an error into the function's error RESULT (the result is unnamed or shadowed: the assignment goes to an ordinary local): after a recovered panic the caller receives the zero value — success — for a call that panicked half way")
+			}
+			if changedFlag && f.Signature.Recv() != nil && typeShort(f.Signature.Recv().Type()) == "eventlogger.Broker" {
+				res := f.Signature.Results()
+				for i := 0; i < res.Len(); i++ {
+					if b, isBasic := res.At(i).Type().Underlying().(*types.Basic); !isBasic || b.Kind() != types.Bool {
+						continue
+					}
+					okFlag := false
+					for _, v := range storesTo[i] {
+						if bv, isC := constBool(v); isC && bv {
+							okFlag = true
+						}
+					}
+					r.Check(okFlag, rule, p.ShortFn(f)+":changed-flag", p.InstrPos(d), "a recovered panic reports the change flag as true",
+						"the function recovers a panic and returns its results as they stand, but the recovering closure does not set the boolean result: a panic after the registry was changed (a node's Close, say) makes the call report FALSE — `nothing was removed, everything is as it was` — although the pipeline and its nodes are gone")
+				}
+			}
+		})
+	}
+	if !control {
+		r.Notes = append(r.Notes, fmt.Sprintf("%s: %d recovering deferred functions examined", rule, n))
+	}
+}
+
+// ruleWaitGroupFields (<prefix>.wgfield): a sync.WaitGroup that lives in a FIELD of a
+// shared object (the Broker, a graph, a sink) is used by different calls, possibly at the
+// same time — unlike the wait group a single Send makes for itself. sync.WaitGroup
+// requires that an Add which starts from a zero counter happens before Wait; an Add in
+// one API call (Send counting itself in) racing with a Wait in another (a removal
+// draining the Sends) is "WaitGroup misuse" / "WaitGroup is reused before previous Wait
+// has returned": a PANIC, raised in whichever goroutine loses, typically one the caller
+// cannot recover. So every Add site and every Wait site of such a field must hold a
+// common lock. control: the rule runs over the control package only.
+func (c *Ctx) ruleWaitGroupFields(rule string, control bool) {
+	p, r := c.P, c.R
+	must := c.MustLocks()
+	type site struct {
+		fn   *ssa.Function
+		in   ssa.Instruction
+		held LockSet
+	}
+	adds, waits := map[string][]site{}, map[string][]site{}
+	for _, f := range c.allFuncs() {
+		if control != p.InCtl(f) || (!control && !p.InRepo(f)) {
+			continue
+		}
+		eachInstr(f, func(in ssa.Instruction) {
+			ci, ok := in.(ssa.CallInstruction)
+			if !ok {
+				return
+			}
+			sc := ci.Common().StaticCallee()
+			if sc == nil || sc.Signature.Recv() == nil || typeShort(sc.Signature.Recv().Type()) != "sync.WaitGroup" || len(ci.Common().Args) == 0 {
+				return
+			}
+			fa, isField := ci.Common().Args[0].(*ssa.FieldAddr)
+			if !isField {
+				return // a wait group local to one call
+			}
+			st, ok := fa.X.Type().Underlying().(*types.Pointer).Elem().Underlying().(*types.Struct)
+			if !ok {
+				return
+			}
+			class := typeShort(fa.X.Type()) + "." + st.Field(fa.Field).Name()
+			s := site{f, in, must.At(in)}
+			switch sc.Name() {
+			case "Add":
+				adds[class] = append(adds[class], s)
+			case "Wait":
+				waits[class] = append(waits[class], s)
+			}
+		})
+	}
+	var classes []string
+	for cl := range adds {
+		classes = append(classes, cl)
+	}
+	for cl := range waits {
+		if _, ok := adds[cl]; !ok {
+			classes = append(classes, cl)
+		}
+	}
+	sort.Strings(classes)
+	for _, cl := range classes {
+		// a lock held at every Add and every Wait
+		var common map[string]bool
+		for _, s := range append(append([]site{}, adds[cl]...), waits[cl]...) {
+			h := map[string]bool{}
+			for k := range s.held {
+				h[k] = true
+			}
+			if common == nil {
+				common = h
+				continue
+			}
+			for k := range common {
+				if !h[k] {
+					delete(common, k)
+				}
+			}
+		}
+		okWG := len(common) > 0 || len(adds[cl]) == 0 || len(waits[cl]) == 0
+		pos, who := "", ""
+		if len(waits[cl]) > 0 {
+			pos, who = p.InstrPos(waits[cl][0].in), p.ShortFn(waits[cl][0].fn)
+		} else if len(adds[cl]) > 0 {
+			pos, who = p.InstrPos(adds[cl][0].in), p.ShortFn(adds[cl][0].fn)
+		}
+		detail := fmt.Sprintf("wait group field %s: %d Add and %d Wait sites share no lock (Wait in %s): an Add that starts from a zero counter can run while another call is in Wait — sync.WaitGroup panics (`misuse: Add called concurrently with Wait` / `reused before previous Wait has returned`), in a goroutine the caller may not be able to recover", cl, len(adds[cl]), len(waits[cl]), who)
+		switch {
+		case control && !okWG:
+			if isBadName(cl) {
+				r.ControlFired(rule, cl, pos, detail)
+			} else {
+				r.Und(rule, cl, pos, "negative control flagged: "+detail)
+			}
+		case control:
+			if isBadName(cl) {
+				r.Und(rule, cl, pos, "positive control not flagged")
+			}
+		default:
+			r.Check(okWG, rule, cl, pos, "every Add and Wait of the shared wait group holds a common lock", detail)
+		}
+	}
+	if !control {
+		r.Notes = append(r.Notes, fmt.Sprintf("%s: %d wait groups held in fields of shared objects", rule, len(classes)))
+	}
+}
+
+// ruleGatedSendOnce (C17.once / C11.once): "every previously gated group was emitted
+// exactly once". A group leaves through ONE Sender.Send: the filter has one call site of
+// Sender.Send, and it does not sit in a loop of the function that holds it (a retry —
+// "send again while the Broker reports warnings" — re-delivers the composite to the
+// pipelines that had already taken it: a warning means SOME pipeline failed).
+func (c *Ctx) ruleGatedSendOnce(rule string) {
+	p, r := c.P, c.R
+	n := 0
+	for _, f := range p.FuncsIn(PkgGated) {
+		for _, ci := range callsTo(f, func(nm string, cc *ssa.CallCommon) bool { return nm == "invoke gated.Sender.Send" }) {
+			n++
+			r.Check(!inCycle(ci.Block()), rule, p.ShortFn(f)+"->Sender.Send", p.InstrPos(ci), "the composite is sent by a call that is not repeated",
+				"Sender.Send sits in a loop of "+p.ShortFn(f)+": the composite of one group can be sent more than once (a retry re-delivers it to every pipeline that had already taken it) while Process, FlushAll and Close report success — the group is emitted twice or more, not exactly once")
+		}
+	}
+	r.Check(n == 1, rule, "Sender.Send:sites", "", "exactly one call site of Sender.Send in the gated filter", fmt.Sprintf("%d call sites of Sender.Send in package gated (1 expected: openGate's)", n))
+}
+
+// rulePayloadBytesReadOnly (C10.mut payload-bytes-readonly): "Process never modifies the
+// event or payload it was given". The salt and info of an EventWrapperInfo payload are
+// handed out by the ORIGINAL payload (they are read before the event is copied, and travel
+// on in the per-event options): whatever the filter does with them, it must not write
+// through them. A helper that overwrites a byte slice in place (a "scrub" of key
+// material, an in-place normalisation) is fine for the filter's own copies and a
+// modification of the caller's event when it is handed the payload's slice — directly, via
+// a local that may hold it, or via a deferred closure that captured that local.
+func (c *Ctx) rulePayloadBytesReadOnly(rule string) {
+	p, r := c.P, c.R
+	isBytes := func(t types.Type) bool {
+		sl, ok := t.Underlying().(*types.Slice)
+		if !ok {
+			return false
+		}
+		b, ok := sl.Elem().Underlying().(*types.Basic)
+		return ok && b.Kind() == types.Uint8
+	}
+	var fns []*ssa.Function
+	var addAll func(f *ssa.Function)
+	addAll = func(f *ssa.Function) {
+		fns = append(fns, f)
+		for _, a := range f.AnonFuncs {
+			addAll(a)
+		}
+	}
+	for _, f := range p.FuncsIn(PkgEncrypt) {
+		if f.Parent() == nil {
+			addAll(f)
+		}
+	}
+	// base of a slice value through re-slicing
+	var base func(v ssa.Value) ssa.Value
+	base = func(v ssa.Value) ssa.Value {
+		if sl, ok := v.(*ssa.Slice); ok {
+			return base(sl.X)
+		}
+		return v
+	}
+	// writes[f][k]: f writes through its k-th parameter
+	writes := map[*ssa.Function]map[int]bool{}
+	paramIdx := func(f *ssa.Function, v ssa.Value) int {
+		v = base(v)
+		for i, pr := range f.Params {
+			if ssa.Value(pr) == v && isBytes(pr.Type()) {
+				return i
+			}
+		}
+		return -1
+	}
+	for changed := true; changed; {
+		changed = false
+		for _, f := range fns {
+			mark := func(k int) {
+				if k < 0 {
+					return
+				}
+				if writes[f] == nil {
+					writes[f] = map[int]bool{}
+				}
+				if !writes[f][k] {
+					writes[f][k] = true
+					changed = true
+				}
+			}
+			eachInstr(f, func(in ssa.Instruction) {
+				switch x := in.(type) {
+				case *ssa.Store:
+					if ia, ok := x.Addr.(*ssa.IndexAddr); ok {
+						mark(paramIdx(f, ia.X))
+					}
+				case *ssa.Call:
+					if b, isB := x.Call.Value.(*ssa.Builtin); isB {
+						if (b.Name() == "copy" || b.Name() == "clear") && len(x.Call.Args) > 0 {
+							mark(paramIdx(f, x.Call.Args[0]))
+						}
+						return
+					}
+					if sc := x.Call.StaticCallee(); sc != nil && writes[sc] != nil {
+						for k := range writes[sc] {
+							if k < len(x.Call.Args) {
+								mark(paramIdx(f, x.Call.Args[k]))
+							}
+						}
+					}
+				}
+			})
+		}
+	}
+	// may the value hold a slice handed out by the original payload / carried by the per-event options?
+	var derived func(f *ssa.Function, v ssa.Value, d int) string
+	derived = func(f *ssa.Function, v ssa.Value, d int) string {
+		if d > 6 || v == nil {
+			return ""
+		}
+		v = base(v)
+		switch x := v.(type) {
+		case *ssa.Call:
+			if x.Call.IsInvoke() && (x.Call.Method.Name() == "HmacSalt" || x.Call.Method.Name() == "HmacInfo") {
+				return "the payload's " + x.Call.Method.Name() + "()"
+			}
+		case *ssa.Phi:
+			for _, e := range x.Edges {
+				if w := derived(f, e, d+1); w != "" {
+					return w
+				}
+			}
+		case *ssa.UnOp:
+			if x.Op != token.MUL {
+				return ""
+			}
+			cell := x.X
+			owner := f
+			// a captured variable: continue in the function that owns the cell
+			if fv, isFV := cell.(*ssa.FreeVar); isFV && f.Parent() != nil {
+				for i, g := range f.FreeVars {
+					if g == fv {
+						eachInstr(f.Parent(), func(pi ssa.Instruction) {
+							if mc, ok := pi.(*ssa.MakeClosure); ok && mc.Fn == ssa.Value(f) && i < len(mc.Bindings) {
+								cell, owner = mc.Bindings[i], f.Parent()
+							}
+						})
+					}
+				}
+			}
+			if fa, isFA := cell.(*ssa.FieldAddr); isFA {
+				if st, ok := fa.X.Type().Underlying().(*types.Pointer).Elem().Underlying().(*types.Struct); ok {
+					if nm := st.Field(fa.Field).Name(); nm == "withSalt" || nm == "withInfo" {
+						return "the per-event option " + nm + " (which may be the payload's own slice)"
+					}
+				}
+				return ""
+			}
+			if al, isAl := cell.(*ssa.Alloc); isAl {
+				why := ""
+				var scan func(g *ssa.Function)
+				scan = func(g *ssa.Function) {
+					eachInstr(g, func(gi ssa.Instruction) {
+						if st, ok := gi.(*ssa.Store); ok && st.Addr == ssa.Value(al) && why == "" {
+							why = derived(g, st.Val, d+1)
+						}
+					})
+					for _, a := range g.AnonFuncs {
+						scan(a)
+					}
+				}
+				scan(owner)
+				return why
+			}
+		case *ssa.Field:
+			if st, ok := x.X.Type().Underlying().(*types.Struct); ok {
+				if nm := st.Field(x.Field).Name(); nm == "withSalt" || nm == "withInfo" {
+					return "the per-event option " + nm + " (which may be the payload's own slice)"
+				}
+			}
+		}
+		return ""
+	}
+	n := 0
+	for _, f := range fns {
+		eachInstr(f, func(in ssa.Instruction) {
+			switch x := in.(type) {
+			case *ssa.Store:
+				if ia, ok := x.Addr.(*ssa.IndexAddr); ok && isBytes(ia.X.Type()) {
+					if w := derived(f, ia.X, 0); w != "" {
+						n++
+						r.Bad(rule, p.ShortFn(f)+":payload-bytes-readonly", p.InstrPos(in), "a byte of "+w+" is overwritten in place: that slice belongs to the event the caller handed in (it is read before the event is copied) — the caller, and every other pipeline, see the modified salt / info afterwards")
+					}
+				}
+			case ssa.CallInstruction:
+				cc := x.Common()
+				var ks map[int]bool
+				if b, isB := cc.Value.(*ssa.Builtin); isB && (b.Name() == "copy" || b.Name() == "clear") {
+					ks = map[int]bool{0: true}
+				} else if sc := cc.StaticCallee(); sc != nil {
+					ks = writes[sc]
+				}
+				for k := range ks {
+					if k >= len(cc.Args) || !isBytes(cc.Args[k].Type()) {
+						continue
+					}
+					n++
+					if w := derived(f, cc.Args[k], 0); w != "" {
+						r.Bad(rule, p.ShortFn(f)+":payload-bytes-readonly", p.InstrPos(in), calleeName(cc)+" writes through its argument, and here the argument may be "+w+": that slice belongs to the event the caller handed in (it is read before the event is copied) — the caller, and every other pipeline, see the modified salt / info afterwards")
+					}
+				}
+			}
+		})
+	}
+	r.Ok(rule, "payload-bytes-readonly", "", fmt.Sprintf("%d in-place writes to byte slices examined in package encrypt: none can reach a slice handed out by the payload", n))
+}
+
+// forwardedStoreIgnoringCalls: the last store to cell before ld in ld's block, for a cell no call can change
+// (readOnlyCapturedCell).
+func forwardedStoreIgnoringCalls(ld *ssa.UnOp, cell *ssa.Alloc) ssa.Value {
+	if !readOnlyCapturedCell(cell) {
+		return nil
+	}
+	instrs := ld.Block().Instrs
+	for j := instrIndex(ld) - 1; j >= 0; j-- {
+		if st, ok := instrs[j].(*ssa.Store); ok && st.Addr == ssa.Value(cell) {
+			return st.Val
+		}
+	}
+	return nil
+}
+
+// ruleStoreSites: every place that puts a registration into a graph's pipeline map.
+//   - rule5 (C05.store-validated): the chain it stores was validated on the way (doValidate on
+//     that very root dominates the Store) or is the chain of a registration that is already in the
+//     map — "only well-formed pipelines are ever registered" holds for every writer of the map,
+//     not only for RegisterPipeline (a hot-swap API that re-links chains and stores them
+//     unvalidated registers [filter, filter, sink]).
+//   - rule7 (C07.store-policy): the registration it stores carries a registration policy: the
+//     call's option, or the policy of the entry it replaces — a copy that leaves the field out
+//     stores the zero value, which RegisterPipeline does not recognise as DenyOverwrite.
+func (c *Ctx) ruleStoreSites(rule5, rule7 string) {
+	p, r := c.P, c.R
+	n := 0
+	var fns []*ssa.Function
+	var addAll func(f *ssa.Function)
+	addAll = func(f *ssa.Function) {
+		fns = append(fns, f)
+		for _, a := range f.AnonFuncs {
+			addAll(a)
+		}
+	}
+	for _, f := range p.FuncsIn(PkgRoot) {
+		if f.Parent() == nil && !(f.Signature.Recv() != nil && typeShort(f.Signature.Recv().Type()) == "eventlogger.graphMap") {
+			addAll(f)
+		}
+	}
+	for _, f := range fns {
+		tb := p.NewTerms(nil)
+		for _, ci := range callsTo(f, func(nm string, cc *ssa.CallCommon) bool { return nm == "(*eventlogger.graphMap).Store" }) {
+			n++
+			construct := p.ShortFn(f) + ":Store"
+			al, isLit := stripConv(ci.Common().Args[2]).(*ssa.Alloc)
+			if !isLit || typeShort(al.Type()) != "eventlogger.registeredPipeline" {
+				// an existing registration stored again as it is: nothing new enters the map
+				t := tb.Of(ci.Common().Args[2])
+				okSame := t.Op == "Param" || t.Op == "Extract" || t.Op == "Assert" || t.Op == "Field"
+				if rule5 != "" {
+					r.Check(okSame, rule5, construct, p.InstrPos(ci), "an existing registration is stored as it is", "what is stored into the pipeline map is neither a registration built here nor one taken from the map: "+shortStr(t.String(), 80))
+				}
+				continue
+			}
+			var root, pol ssa.Value
+			for _, st := range litStores(al) {
+				fa := st.Addr.(*ssa.FieldAddr)
+				switch fa.X.Type().Underlying().(*types.Pointer).Elem().Underlying().(*types.Struct).Field(fa.Field).Name() {
+				case "rootNode":
+					root = st.Val
+				case "registrationPolicy":
+					pol = st.Val
+				}
+			}
+			if rule5 != "" {
+				okRoot := false
+				why := "no rootNode"
+				if root != nil {
+					rt := tb.Of(root)
+					why = "the chain " + shortStr(rt.String(), 70) + " is neither validated before the store nor taken from a registered pipeline"
+					// (b) the chain of a registration that is already registered
+					if rt.Is("Field", "rootNode") {
+						okRoot = true
+					}
+					// (a) validated on the way: doValidate(.., root) dominates the store
+					for _, g := range append([]*ssa.Function{f}, parentsOf(f)...) {
+						for _, vc := range callsTo(g, func(nm string, cc *ssa.CallCommon) bool { return nm == "(*eventlogger.graph).doValidate" }) {
+							args := vc.Common().Args
+							if len(args) == 3 && tb.Of(args[2]).String() == rt.String() && (g != f || dominatesInstr(vc, ci)) {
+								okRoot = true
+							}
+						}
+					}
+				}
+				r.Check(okRoot, rule5, construct, p.InstrPos(ci), "the chain that is stored was validated (or is the chain of a registered pipeline)", "a registration is stored into the pipeline map although "+why+": a pipeline that is not well-formed (no formatter in front of the sink, a filter in the formatter's place) receives events")
+			}
+			if rule7 != "" {
+				okPol := false
+				if pol != nil {
+					pt := tb.Of(pol)
+					okPol = pt.Is("Field", "withPipelineRegistrationPolicy") || pt.Is("Field", "registrationPolicy")
+				}
+				r.Check(okPol, rule7, construct+":policy", p.InstrPos(ci), "the stored registration carries the call's policy or the policy of the entry it replaces",
+					"the registration that is stored does not carry a registration policy (the field is left out of the copy, or set from something else): a pipeline registered with DenyOverwrite becomes overwritable, and the original stops receiving events although it was never removed")
+			}
+		}
+	}
+	if n < 1 {
+		r.Und(rule5+rule7, "Store:instance-floor", "", "no call of graphMap.Store found outside graphMap")
+	}
+}
+
+// parentsOf: the enclosing functions of a closure, innermost first.
+func parentsOf(f *ssa.Function) []*ssa.Function {
+	var out []*ssa.Function
+	for g := f.Parent(); g != nil; g = g.Parent() {
+		out = append(out, g)
+	}
+	return out
+}
+
+// ruleWhoMayClose (C06.close who-may-close): a node is closed by the Broker because it LEFT
+// the registry: the only place that builds an unregisteredNode that is to be closed
+// (closer: true) is unregisterNode, which deletes the id in the same breath, and close() is
+// only called on what unregisterNode / unregisterPipelineAndNodes handed back. Any other
+// construction site — "close the node I just replaced" — closes a node the accounting knows
+// nothing about: it may be the very instance that stays registered (closed now, and again
+// when it is removed), or one a pipeline still runs.
+func (c *Ctx) ruleWhoMayClose(rule string) {
+	p, r := c.P, c.R
+	n := 0
+	for _, f := range c.allFuncs() {
+		if PkgPathOf(f) != PkgRoot {
+			continue
+		}
+		eachInstr(f, func(in ssa.Instruction) {
+			st, ok := in.(*ssa.Store)
+			if !ok {
+				return
+			}
+			fa, ok := st.Addr.(*ssa.FieldAddr)
+			if !ok {
+				return
+			}
+			stt, ok := fa.X.Type().Underlying().(*types.Pointer).Elem().Underlying().(*types.Struct)
+			if !ok || typeShort(fa.X.Type()) != "eventlogger.unregisteredNode" || stt.Field(fa.Field).Name() != "closer" {
+				return
+			}
+			if b, isC := constBool(st.Val); isC && !b {
+				return
+			}
+			n++
+			r.Check(f.Name() == "unregisterNode", rule, p.ShortFn(f)+":who-may-close", p.InstrPos(in), "a node to be closed is produced only by unregisterNode (it left the registry)",
+				p.ShortFn(f)+" builds an unregisteredNode that is to be closed although the node does not leave the registry through unregisterNode: the Broker closes a node outside its accounting — possibly the very instance that stays registered (closed again when it is removed) or one a pipeline still runs")
+		})
+	}
+	if n < 1 {
+		r.Und(rule, "who-may-close:instance-floor", "", "no construction of a to-be-closed unregisteredNode found")
+	}
+}
+
+// ruleNoCallerSliceRetained (C01.link no-caller-slice): what a pipeline IS — its chain —
+// is built from the definition at registration and does not depend on memory the caller
+// keeps: no Broker function stores a slice it was handed (a slice parameter, a slice field
+// of a by-value struct parameter, or a re-slice of either) into a field of an object. A
+// registration that remembers def.NodeIDs as it is changes when the caller re-uses the
+// slice for the next definition; anything later derived from it (a re-link, a node list for
+// removal) belongs to another pipeline.
+func (c *Ctx) ruleNoCallerSliceRetained(rule string) {
+	p, r := c.P, c.R
+	n := 0
+	for _, f := range p.FuncsIn(PkgRoot) {
+		if f.Signature.Recv() == nil || typeShort(f.Signature.Recv().Type()) != "eventlogger.Broker" {
+			continue
+		}
+		tb := p.NewTerms(nil)
+		eachInstr(f, func(in ssa.Instruction) {
+			st, ok := in.(*ssa.Store)
+			if !ok {
+				return
+			}
+			if _, isSlice := st.Val.Type().Underlying().(*types.Slice); !isSlice {
+				return
+			}
+			if _, isField := st.Addr.(*ssa.FieldAddr); !isField {
+				return
+			}
+			n++
+			v := st.Val
+			for {
+				if sl, ok := v.(*ssa.Slice); ok {
+					v = sl.X
+					continue
+				}
+				break
+			}
+			t := tb.Of(v)
+			fromCaller := t.Op == "Param" || (t.Op == "Field" && len(t.Args) == 1 && t.Args[0].Op == "Param")
+			r.Check(!fromCaller, rule, p.ShortFn(f)+":no-caller-slice", p.InstrPos(in), "no slice handed in by the caller is kept",
+				"a slice the caller handed in ("+shortStr(t.String(), 60)+") is stored into an object as it is: the caller still owns the backing array, and re-using it (building the next definition in the same slice) silently changes what the Broker remembers about this pipeline")
+		})
+	}
+	r.Notes = append(r.Notes, fmt.Sprintf("%s: %d stores of slice values into object fields examined in Broker methods", rule, n))
+}
+
+// ruleStatusReadOnly (C02.merge status-readonly): the id lists of a Status are written by the
+// collector alone. A method of Status gets its receiver BY VALUE, but the slices inside still
+// share their backing arrays with the Status that Send returned: an accessor that filters
+// "in place" (append onto s.complete[:0]) or sorts / overwrites elements rewrites the
+// caller's Complete() list.
+func (c *Ctx) ruleStatusReadOnly(rule string) {
+	p, r := c.P, c.R
+	n := 0
+	for _, f := range c.allFuncs() {
+		if PkgPathOf(f) != PkgRoot || f.Signature.Recv() == nil || typeShort(f.Signature.Recv().Type()) != "eventlogger.Status" || f.Synthetic != "" {
+			continue
+		}
+		n++
+		tb := p.NewTerms(nil)
+		var isListD func(v ssa.Value, seen map[ssa.Value]bool) bool
+		isListD = func(v ssa.Value, seen map[ssa.Value]bool) bool {
+			if seen[v] {
+				return false
+			}
+			seen[v] = true
+			switch x := v.(type) {
+			case *ssa.Slice:
+				return isListD(x.X, seen)
+			case *ssa.Phi:
+				for _, e := range x.Edges {
+					if isListD(e, seen) {
+						return true
+					}
+				}
+				return false
+			case *ssa.Call:
+				// the result of append shares the array of what was appended to (while capacity lasts)
+				if b, isB := x.Call.Value.(*ssa.Builtin); isB && b.Name() == "append" && len(x.Call.Args) > 0 {
+					return isListD(x.Call.Args[0], seen)
+				}
+			}
+			t := tb.Of(v)
+			return t.Op == "Field" && (t.Name == "complete" || t.Name == "completeSinks" || t.Name == "Warnings")
+		}
+		isList := func(v ssa.Value) bool { return isListD(v, map[ssa.Value]bool{}) }
+		okFn := true
+		where := ssa.Instruction(nil)
+		eachInstr(f, func(in ssa.Instruction) {
+			switch x := in.(type) {
+			case *ssa.Store:
+				if ia, ok := x.Addr.(*ssa.IndexAddr); ok && isList(ia.X) {
+					okFn, where = false, in
+				}
+			case *ssa.Call:
+				if b, isB := x.Call.Value.(*ssa.Builtin); isB && (b.Name() == "append" || b.Name() == "copy" || b.Name() == "clear") && len(x.Call.Args) > 0 && isList(x.Call.Args[0]) {
+					okFn, where = false, in
+				}
+			}
+		})
+		pos := p.Pos(f.Pos())
+		if where != nil {
+			pos = p.InstrPos(where)
+		}
+		r.Check(okFn, rule, p.ShortFn(f)+":status-readonly", pos, "the method does not write through the Status's lists",
+			"a method of Status appends onto, copies into or overwrites an element of one of the Status's own lists (a re-slice such as s.complete[:0] shares the backing array): the lists of the Status that Send returned change under the caller — ids vanish or appear twice, and complete-sinks is no longer a sub-list of completes")
+	}
+	if n < 3 {
+		r.Und(rule, "status-readonly:instance-floor", "", fmt.Sprintf("only %d methods of Status found (Complete, CompleteSinks, getError expected)", n))
 	}
 }
